@@ -28,7 +28,7 @@ EXPLANATION = ('Static path/dominance/who-may-call rules over the CFG facts of t
                'Each is a necessary condition of memory safety / bounded work for every accepted font and text; absence of '
                'out-of-bounds access in float-derived collision indexing and the numeric work bound are NOT decided.')
 FLOORS = {'VMSTACK': 60, 'STACKMODEL': 30, 'PARAMSZ': 55, 'DIVGUARD': 1, 'NOSIGNEDOVF': 50, 'SLOTREF': 20,
-          'USERATTR': 3, 'GROWTH': 9, 'CONST': 7, 'RECURSION': 5, 'LOOPLIMIT': 4, 'CMAPBOUND': 4, 'ADVIDX': 2}
+          'USERATTR': 3, 'GROWTH': 9, 'CONST': 7, 'RECURSION': 5, 'LOOPLIMIT': 4, 'CMAPBOUND': 4, 'ADVIDX': 2, 'FREEDSLOT': 3, 'OWNLOCAL': 12}
 
 
 # ------------------------------------------------------------------------------------------ SLOTREF
@@ -679,6 +679,9 @@ def run(run):
     recursion(run, fx)
     looplimit(run, fx)
     advidx(run, fx)
+    from . import c03, c16
+    c03.freedslot(run, fx, 'FREEDSLOT')          # "never causes ... undefined behaviour": no use of a slot after it went back to the pool (shared with C03)
+    c16.ownlocal(run, fx, None)                  # "or a leak": a failed gr_make_seg frees what it allocated (shared with C16)
     from . import c13
     c13.cmapbound(run, fx)
     run.assume('allocation failure is outside the quantifier (inputs, programs): null returns of the allocators are exempt exits')
